@@ -171,6 +171,12 @@ def rule_sender_drop(ctx, facts, rule):
         src = prov.of_operand(fn, fn.term(p)["args"][1])
         if has_origin(src, kind="param", key=1, path_suffix=("." + field,)):
             fed = True
+    rev = False
+    for p in pushes:
+        src = prov.of_operand(fn, fn.term(p)["args"][1])
+        rev = rev or any(v[0] == "call" and re.search(r"Iterator>?::(rev|next_back|last)$|::(pop|pop_back)$", v[1]) for o in src for v in o.via)
+    ctx.check(not rev, rule, fn.path, fn.span, "the flush keeps the parked order (no rev()/next_back()/pop())", "",
+              "the elements pushed at thread exit come through a reversing adaptor", extra="no-rev")
     ctx.check(fed, rule, fn.path, fn.span, "every parked command is pushed to the ring",
               "Producer::push fed from `%s`" % field,
               "no Producer::push in Drop receives elements of `%s`" % field, extra="push")
@@ -256,3 +262,21 @@ def rule_order(ctx, facts, rule):
             ctx.fail(rule, fn.path, fn.span, "%s replays the overflow list before sending" % name,
                      "no dequeue from `%s` found" % field, extra="replay")
     ctx.floor(rule, SENDER, n, 2, "send functions")
+    # the two send paths and the exit flush agree on the dequeue end, and it is opposite to where new commands are parked
+    ends = {}
+    parked = set()
+    for name in ("send", "force_send"):
+        fn = facts.fn("%s::<T>::%s" % (SENDER, name))
+        if fn is None:
+            continue
+        ops = classify_ops(fn, prov, field)
+        ends[name] = sorted({e for b, role, e, c in ops if role == "deq"})
+        for b, role, e, c in ops:
+            if role == "enq" and has_origin(prov.of_operand(fn, fn.term(b)["args"][1]), kind="param", key=2):
+                parked.add(e)
+    all_deq = {e for v in ends.values() for e in v}
+    ctx.check(len(all_deq) == 1 and not (all_deq & parked) and bool(parked), rule + "a", SENDER, "-",
+              "send and force_send replay from the same end of the overflow list, opposite to where force_send parks new commands",
+              "dequeue ends %s, parking end %s" % (ends, sorted(parked)),
+              "dequeue ends %s, new commands parked at %s: commands parked by force_send are replayed out of order by one of the "
+              "send paths" % (ends, sorted(parked)), extra="fifo-all")
